@@ -50,6 +50,10 @@ fn judge_result<T: Clone + Debug + Eq + 'static, E: Clone + Debug + Eq + 'static
   Ok(())
 }
 
+fn cow(borrowed: bool, s: &str) -> std::borrow::Cow<'static, str> {
+  if borrowed { std::borrow::Cow::Borrowed(match s { "" => "", "a" => "a", "b" => "b", _ => "c" }) } else { std::borrow::Cow::Owned(match s { "" | "a" | "b" => s.to_string(), _ => "c".to_string() }) }
+}
+
 fn judge_equals<O: Clone + Debug + Eq + 'static>(o1: &O, o2: &O) -> CheckResult {
   let (d, o) = both_routes(EqualsChecker, o1, o2);
   let want = o1 == o2;
@@ -74,8 +78,20 @@ impl PartialEq for Loose { fn eq(&self, o: &Self) -> bool { self.0 == o.0 } }
 impl Eq for Loose {}
 impl std::hash::Hash for Loose { fn hash<H: std::hash::Hasher>(&self, h: &mut H) { self.0.hash(h) } }
 
+/// An enum whose equality looks through the variant (like `Cow::Borrowed(x) == Cow::Owned(x)`).
+#[derive(Clone, Copy, Serialize, Deserialize, Debug)]
+pub enum Var { A(u8), B(u8) }
+impl Var { fn inner(&self) -> u8 { match self { Var::A(x) | Var::B(x) => *x } } }
+impl PartialEq for Var { fn eq(&self, o: &Self) -> bool { self.inner() == o.inner() } }
+impl Eq for Var {}
+impl std::hash::Hash for Var { fn hash<H: std::hash::Hasher>(&self, h: &mut H) { self.inner().hash(h) } }
+
 #[derive(Clone, Debug, Serialize, Deserialize, PartialEq, Eq, Hash)]
 pub enum Pair {
+  /// Enum payloads / outputs equal across variants; and the std type with that property.
+  VarP(Ck, Result<Var, Var>, Result<Var, Var>),
+  EqVar(Var, Var),
+  EqCow(bool, String, bool, String),
   /// Payload types whose Debug text and Eq disagree (the relation is defined by Eq).
   TerseP(Ck, Result<Terse, Terse>, Result<Terse, Terse>),
   LooseP(Ck, Result<Loose, Loose>, Result<Loose, Loose>),
@@ -103,6 +119,9 @@ pub fn check(p: &Pair, stats: &mut Stats) -> CheckResult {
     Pair::Small(c, a, b) => (judge_result(*c, a, b), rel(*c, a, b) != (a == b)),
     Pair::Text(c, a, b) => (judge_result(*c, a, b), rel(*c, a, b) != (a == b)),
     Pair::Mixed(c, a, b) => (judge_result(*c, a, b), rel(*c, a, b) != (a == b)),
+    Pair::VarP(c, a, b) => { stats.class("enum_payload_equal_across_variants"); (judge_result(*c, a, b), true) }
+    Pair::EqVar(a, b) => { stats.class("enum_payload_equal_across_variants"); (judge_equals(a, b), true) }
+    Pair::EqCow(ba, a, bb, b) => { stats.class("enum_payload_equal_across_variants"); (judge_equals(&cow(*ba, a), &cow(*bb, b)), true) }
     Pair::TerseP(c, a, b) => { stats.class("payload_whose_debug_text_and_eq_disagree"); (judge_result(*c, a, b), true) }
     Pair::LooseP(c, a, b) => { stats.class("payload_whose_debug_text_and_eq_disagree"); (judge_result(*c, a, b), true) }
     Pair::EqTerse(a, b) => (judge_equals(a, b), a != b),
@@ -126,6 +145,9 @@ pub fn check(p: &Pair, stats: &mut Stats) -> CheckResult {
     Pair::Small(c, a, _) => judge_result(*c, a, a),
     Pair::Text(c, a, _) => judge_result(*c, a, a),
     Pair::Mixed(c, a, _) => judge_result(*c, a, a),
+    Pair::VarP(c, a, _) => judge_result(*c, a, a),
+    Pair::EqVar(a, _) => judge_equals(a, a),
+    Pair::EqCow(ba, a, _, _) => judge_equals(&cow(*ba, a), &cow(!*ba, a)),
     Pair::TerseP(c, a, _) => judge_result(*c, a, a),
     Pair::LooseP(c, a, _) => judge_result(*c, a, a),
     Pair::EqTerse(a, _) => judge_equals(a, a),
@@ -155,7 +177,12 @@ pub fn strategy() -> impl Strategy<Value=Pair> {
   fn wide() -> impl Strategy<Value=Result<[u8; 24], u64>> { res((0u8..3, 0usize..24).prop_map(|(v, i)| { let mut a = [0u8; 24]; a[i] = v; a }), prop_oneof![0u64..3, Just(1u64 << 40), Just(u64::MAX)]) }
   fn terse() -> impl Strategy<Value=Terse> { (0u8..2, 0u8..2).prop_map(|(a, b)| Terse(a, b)) }
   fn loose() -> impl Strategy<Value=Loose> { (0u8..2, 0u8..2).prop_map(|(a, b)| Loose(a, b)) }
+  fn var() -> impl Strategy<Value=Var> { (any::<bool>(), 0u8..2).prop_map(|(v, x)| if v { Var::A(x) } else { Var::B(x) }) }
+  fn tiny() -> impl Strategy<Value=String> { prop_oneof![Just(String::new()), Just("a".to_string()), Just("b".to_string())] }
   prop_oneof![
+    2 => (ck(), res(var(), var()), res(var(), var())).prop_map(|(c, a, b)| Pair::VarP(c, a, b)),
+    1 => (var(), var()).prop_map(|(a, b)| Pair::EqVar(a, b)),
+    1 => (any::<bool>(), tiny(), any::<bool>(), tiny()).prop_map(|(ba, a, bb, b)| Pair::EqCow(ba, a, bb, b)),
     2 => (ck(), res(terse(), terse()), res(terse(), terse())).prop_map(|(c, a, b)| Pair::TerseP(c, a, b)),
     2 => (ck(), res(loose(), loose()), res(loose(), loose())).prop_map(|(c, a, b)| Pair::LooseP(c, a, b)),
     1 => (terse(), terse()).prop_map(|(a, b)| Pair::EqTerse(a, b)),
@@ -183,7 +210,7 @@ pub fn replay(path: &Path) -> Result<CheckResult, String> {
 }
 
 pub fn run(tier: Tier, seed: u64) -> i32 {
-  let rule = "all five built-in checkers through both the OutputChecker methods and the object-safe OutputCheckerObj proxy: (1) exhaustive over all 8x8 pairs of Result<u8 in 0..4, u8 in 0..4> x 5 checkers; (1b) exhaustive over Result<u8,()>, Result<(),u8>, Result<(),()> (zero-sized payload types); (2) proptest-generated pairs of Result<String,String>, Result<(u8,String),Vec<u8>>, Result<String,UnitStruct>, Result<UnitStruct,String>, Result<[u8;24],u64>, payload types whose Debug text is terser / finer than their Eq, and Option/tuple/Vec values for EqualsChecker; oracle: check(o2, stamp(o1)) is consistent iff the documented relation holds, plus reflexivity; non-trivial = pair on which the relation differs from plain equality (or an unequal pair for EqualsChecker); distinct by value hash";
+  let rule = "all five built-in checkers through both the OutputChecker methods and the object-safe OutputCheckerObj proxy: (1) exhaustive over all 8x8 pairs of Result<u8 in 0..4, u8 in 0..4> x 5 checkers; (1b) exhaustive over Result<u8,()>, Result<(),u8>, Result<(),()> (zero-sized payload types); (2) proptest-generated pairs of Result<String,String>, Result<(u8,String),Vec<u8>>, Result<String,UnitStruct>, Result<UnitStruct,String>, Result<[u8;24],u64>, payload types whose Debug text is terser / finer than their Eq, enums (and Cow<str>) equal across variants, and Option/tuple/Vec values for EqualsChecker; oracle: check(o2, stamp(o1)) is consistent iff the documented relation holds, plus reflexivity; non-trivial = pair on which the relation differs from plain equality (or an unequal pair for EqualsChecker); distinct by value hash";
   let mut report = Report::new("C12", tier, seed, "exploration", rule);
   let known = Known::load("C12");
   super::prologue(&mut report, &known);
